@@ -72,12 +72,19 @@ def wf_eval(name, p, d):
         return 0.0 if d < p else 1.0
     if name == "allzero":
         return 0.0
+    # singular / huge at distance 0 (IEEE: x/0 = inf)
+    if name == "invd":
+        return p / d if d != 0 else math.copysign(float("inf"), p)
+    if name == "invd2":
+        return p / (d * d) if d * d != 0 else math.copysign(float("inf"), p)
+    if name == "invdt":
+        return 1.0 / (d + p) if d + p != 0 else float("inf")
     raise KeyError(name)
 
 
 def wf_eps(name, p, d):
     """relative uncertainty allowed between the table and the scalar evaluation"""
-    if name in ("inv", "lin"):
+    if name in ("inv", "lin", "invd", "invd2", "invdt"):
         return 16 * U
     return 0.0
 
@@ -155,6 +162,10 @@ def gen_area(r, lon0, lat0, span, rows, cols):
 def gen_case(r, stream):
     """stream: 'regular' | 'boundary' | 'nonfinite' | 'empty'"""
     lon0, lat0 = r.choice(CENTERS)
+    # weight functions singular / huge at distance 0 (1/d, 1/d^2, 1/(d+tiny)): no coincident points, so every weight
+    # actually used is finite; partially covered locations (1..k-1 neighbours in range) are where a placeholder
+    # distance of a missing slot must not reach the sums
+    singular = stream in ("regular", "boundary") and r.random() < 0.15
     span = r.choice([0.02, 0.05, 0.05, 0.2])
     srows, scols = r.randint(1, 5), r.randint(1, 6)
     trows, tcols = r.randint(1, 4), r.randint(1, 4)
@@ -165,7 +176,7 @@ def gen_case(r, stream):
     km_per_deg = 111.2
     spacing = span * km_per_deg * 1000.0 / 3.0
     src_area = r.random() < 0.2 and abs(lat0) < 89
-    tgt_area = r.random() < 0.3 and abs(lat0) < 89
+    tgt_area = r.random() < 0.3 and abs(lat0) < 89 and not singular
     if src_area:
         src = gen_area(r, lon0, lat0, span, srows, scols)
         spts = None
@@ -178,8 +189,8 @@ def gen_case(r, stream):
         tpts = None
     else:
         shift = r.choice([0.0, 0.0, 0.0, span * 0.7, 30.0 * span])
-        lons, lats = gen_swath(r, norm_lon(lon0 + shift), lat0, span, trows, tcols, r.random() < 0.3)
-        if spts and r.random() < 0.5:           # coincident points: distance exactly 0
+        lons, lats = gen_swath(r, norm_lon(lon0 + shift), lat0, span, trows, tcols, r.random() < 0.3 and not singular)
+        if spts and r.random() < 0.5 and not singular:           # coincident points: distance exactly 0
             for _ in range(r.randint(1, 2)):
                 i, j = r.randrange(trows), r.randrange(tcols)
                 lons[i][j], lats[i][j] = r.choice(spts)
@@ -223,6 +234,10 @@ def gen_case(r, stream):
     else:
         radius = spacing * r.choice([0.6, 1.0, 1.5, 2.5, 4.0])
     k = r.choice([1, 2, 2, 3, 3, 4, 4, 5, 6, 7, 8, 8])
+    if singular:
+        k = r.choice([2, 3, 4, 5, 6, 8])
+        if choice >= 0.1 and stream == "regular":
+            radius = spacing * r.choice([0.6, 1.0, 1.5, 2.5])
     nchan = r.choice([0, 0, 0, 1, 2, 3])
     if nchan == 0 and scols == 1:
         # 2-D single-channel data of shape (n, 1) is read by get_sample_from_neighbour_info as n points x 1 channel
@@ -285,7 +300,7 @@ def gen_case(r, stream):
         fill = r.choice([None, 0.0, -1.0, 255.0])
     else:
         fill = r.choice([None, None, 0.0, -1.0, -999.25, 255.0])
-    mode = r.choice(["gauss", "custom", "custom"])
+    mode = "custom" if singular else r.choice(["gauss", "custom", "custom"])
     c = {"src": src, "tgt": tgt, "dtype": dtype, "data": data, "mask": maskn, "C": nchan, "radius": hx(radius), "k": k,
          "fill": None if fill is None else hx(fill), "mode": mode, "with_uncert": r.random() < 0.65,
          "reduce_data": bool(want_reduce), "segments": None, "stream": stream}
@@ -297,7 +312,13 @@ def gen_case(r, stream):
         wf = []
         for _ in range(shape_c):
             name = r.choice(["bins", "bins", "bins", "inv", "lin", "const", "step0", "allzero"])
-            if name == "const":
+            if singular:
+                name = r.choice(["invd", "invd2", "invdt"])
+            if name == "invdt":
+                p = r.choice([1e-310, 1e-300, 1e-3])       # 1/(0 + 1e-310) overflows to inf, 1/(0 + 1e-300) is huge but finite
+            elif name in ("invd", "invd2"):
+                p = r.choice([1.0, 1000.0, radius])
+            elif name == "const":
                 p = r.choice([1.0, 0.5, 2.0, 0.0])
             elif name == "lin":
                 p = radius * r.choice([0.5, 1.0, 2.0])
@@ -472,7 +493,7 @@ class Judge:
                 else:
                     name, p = c["wf"][j][0], unhex(c["wf"][j][1])
                     ref, eps = wf_eval(name, p, d), wf_eps(name, p, d)
-                if not abs(w - ref) <= eps * abs(ref) + TINY:
+                if not (w == ref or abs(w - ref) <= eps * abs(ref) + TINY):
                     self.bad("C04.weights", "channel %d: weight for distance %r is %r, documented function gives %r" % (j, d, w, ref))
         if o.get("table_conflict"):
             self.bad("C04.weights", "the weight function was observed with two different values for the same distance")
@@ -684,7 +705,7 @@ def run(ctx):
     ctx.rule = ("PRNG cases in four streams (regular / radius on a neighbour distance / non-finite data incl. the first valid source and "
                 "NaN under the mask / no valid input or output): source swath 1x1..5x6 or small laea/eqc/stere area, target swath or area "
                 "at 10 centres incl. poles and antimeridian, k in 1..8 (also k > number of sources), gauss sigmas per channel or custom "
-                "weight functions (dyadic bins with a zero range, 1/(1+(d/p)^2), linear-to-zero, scalar constant incl. 0, zero-near, all-zero), "
+                "weight functions (dyadic bins with a zero range, 1/(1+(d/p)^2), linear-to-zero, scalar constant incl. 0, zero-near, all-zero, and p/d, p/d^2, 1/(d+tiny) singular or huge at 0 on geometries without coincident points), "
                 "float64/float32/int32 data, 1..3 channels, masked data, fill number/None, with_uncert, reduce_data, segments. "
                 "A case is non-trivial when at least one output cell is a weighted mean of >= 2 present neighbours AND at least one slot is "
                 "missing or at least one cell is filled; distinct = distinct (geometry, data, parameters) inputs")
@@ -697,6 +718,8 @@ def run(ctx):
         ctx.count(kind)
         ctx.count("stream:" + c["stream"])
         ctx.count("k=%d" % c["k"])
+        if c["mode"] == "custom" and any(w[0] in ("invd", "invd2", "invdt") for w in c["wf"]):
+            ctx.count("wf_singular_at_0")
         ctx.count("dtype:" + c["dtype"])
         if c["mask"] is not None:
             ctx.count("masked_input")
